@@ -248,3 +248,13 @@ package lazy
 //@   ghost gaveUp = false
 //@   after call determinize: ghost gaveUp = lastcall1 != nil
 //@   ensures gaveUp ==> result == fwdRef(d.nfa, haystack, startPos)
+
+// the prefilter-driven forward search gives up to the NFA from where the caller asked (not from 0)
+//@ func (*DFA).findWithPrefilterAt
+//@   props C14
+//@   opt safety=off
+//@   requires d != nil && cache != nil
+//@   modifies @searchState
+//@   ghost usedFb = false
+//@   after call nfaFallback#*: ghost usedFb = true
+//@   ensures usedFb ==> result == fwdRef(d.nfa, haystack, startAt)
